@@ -14,7 +14,8 @@ ID = 'C09'
 TITLE = 'xref aliasing, order independence, termination'
 RULE = ('data nodes (scalars, lists, mappings, !call producing fresh objects) spread over 1-3 documents and up to 12 (chain mode: 30) '
         '!xref/!ref nodes at top level, inside a mapping, inside a list and inside call arguments, each pointing to a data node, an element '
-        'inside a container, another reference, a later-defined path, a missing path, itself, its own container or closing a cycle; '
+        'inside a container, a value that evaluates to something falsy, another reference, a later-defined path, a missing path, itself, its own '
+        'container or closing a cycle; optionally a previous build with the same EvalContext; '
         'non-trivial = identity checked on a fresh mutable target through a chain of length >=2 or with fan-in >=2, or the graph has a '
         'cycle / dangling edge; distinct = hash of the case.  Every build runs under a budget of %d line events.' % 400000)
 BUDGET = {'quick': (4, 250), 'thorough': (16, 5000)}
